@@ -150,6 +150,11 @@ func (g *Gen) Case(kind int, s [][]byte, z []int64) string {
 	}
 	g.seen[line] = struct{}{}
 	out, fails := g.runWithWatchdog(c)
+	if strings.HasPrefix(out, "skip:") && len(fails) == 0 {
+		// the test vehicle could not run this case (e.g. a helper process wedged): not a case, not a failure
+		g.dist["_skipped_infrastructure"]++
+		return out
+	}
 	if strings.ContainsAny(out, "|\n") {
 		panic("harness: output contains separator: " + out)
 	}
